@@ -17,7 +17,10 @@ fn main() {
     if mode == "phased" {
         // persistent reader threads; the owner edits in place between the two read phases
         let p = build_phased(seed, 3, 6);
-        let lock = std::sync::RwLock::new(p.arena.clone());
+        // (a clone would have exact capacity: keep the slack, so that the owner's edits happen in place)
+        let mut shared = p.arena.clone();
+        shared.reserve(16);
+        let lock = std::sync::RwLock::new(shared);
         let barrier = std::sync::Barrier::new(p.reads1.len() + 1);
         std::thread::scope(|s| {
             for t in 0..p.reads1.len() {
